@@ -14,6 +14,11 @@ from . import c04
 
 TMP = "/tmp/c01/h5"
 LOADERS = [("from_hdf5", "sample"), ("from_hdf5", "observation"), ("parse_table", "sample"), ("load_table", "sample")]
+# the same loaders called with their rarely used arguments (two of these per case); each maps to a model loader
+VARIANTS = [("from_hdf5", "sample", "explicit-defaults"), ("from_hdf5", "observation", "no-subset-metadata"),
+            ("from_hdf5", "sample", "parse_fs-unused"), ("parse_table", "observation", "axis-observation"),
+            ("parse_table", "sample", "input_is_dense"), ("load_table", "sample", "pathlib"),
+            ("load_table", "sample", "open-handle"), ("from_hdf5", "sample", "twice-first-edited")]
 
 
 def loaded_obs(r):
@@ -34,12 +39,49 @@ def loaded_obs(r):
             "ogmd": gmd(r.group_metadata("observation")), "sgmd": gmd(r.group_metadata("sample"))}
 
 
-def run_loader(path, loader, axis, group=None):
+def run_loader(path, loader, axis, group=None, variant=None):
     import h5py
+    import pathlib
+    import numpy as np
     import biom
     from biom import Table
     try:
-        if loader == "from_hdf5":
+        if variant == "explicit-defaults":
+            with h5py.File(path, "r") as f:
+                r = Table.from_hdf5(f if group is None else f[group], ids=None, axis="sample", parse_fs=None,
+                                    subset_with_metadata=True)
+        elif variant == "no-subset-metadata":
+            with h5py.File(path, "r") as f:       # without ids the flag has nothing to do
+                r = Table.from_hdf5(f if group is None else f[group], None, "observation", {}, False)
+        elif variant == "parse_fs-unused":
+            with h5py.File(path, "r") as f:
+                r = Table.from_hdf5(f if group is None else f[group], parse_fs={"no such category": lambda x: "POISONED"})
+        elif variant == "axis-observation":
+            with h5py.File(path, "r") as f:
+                r = biom.parse_table(f if group is None else f[group], ids=None, axis="observation")
+        elif variant == "input_is_dense":
+            with h5py.File(path, "r") as f:
+                r = biom.parse_table(f if group is None else f[group], input_is_dense=True)
+        elif variant == "pathlib":
+            r = biom.load_table(pathlib.Path(path))
+        elif variant == "open-handle":
+            with h5py.File(path, "r") as f:
+                r = biom.load_table(f)
+        elif variant == "twice-first-edited":
+            # two tables loaded from the same handle share nothing: the first is changed in place, the second is observed
+            with h5py.File(path, "r") as f:
+                g = f if group is None else f[group]
+                first = Table.from_hdf5(g)
+                r = Table.from_hdf5(g)
+                with np.errstate(all="ignore"):
+                    if first.shape[0] and first.shape[1]:
+                        first.transform(lambda v, i, md: v * 3.0 + 1.0, inplace=True)
+                        first.update_ids({x: x + "~" for x in first.ids()}, inplace=True)
+                    if first.metadata() is not None:
+                        for e in first.metadata():
+                            for k in list(e):
+                                e[k] = "edited"
+        elif loader == "from_hdf5":
             with h5py.File(path, "r") as f:
                 r = Table.from_hdf5(f if group is None else f[group], axis=axis)
         elif loader == "parse_table":
@@ -78,14 +120,17 @@ def unsafe_views(raw, n, m):
 
 def write_read_load(case, tmp=TMP):
     """Raises c04.Unobservable when the writer or the raw re-read raises (an observation, not a harness error)."""
+    import random
     t, src, pre = c04.prepare(case, tmp)
     path = os.path.join(tmp, "c_%d.biom" % os.getpid())
     c04.fresh(path)
+    c04.plant_stale(case, path)
     try:
         try:
-            gen_by, date = c04.write_file(case, t, path, tmp)
+            with c04.profile_of(case, src):
+                gen_by, date = c04.write_file(case, t, path, tmp)
         except Exception as e:                      # noqa: BLE001
-            raise c04.Unobservable("write", e, src)
+            raise c04.Unobservable("write", e, src, pre)
         try:
             grp = c04.group_name(case)
             raw = c04.raw_tree(path, grp)
@@ -94,12 +139,16 @@ def write_read_load(case, tmp=TMP):
             raise c04.Unobservable("raw-read", e, src)
         bad = unsafe_views(raw, len(src["obs"]), len(src["samp"]))
         # a table inside a non-root group is reached through the open handle only (load_table takes a path)
-        loaders = [(ld, ax) for ld, ax in LOADERS if grp is None or ld != "load_table"]
+        src = c04.after_write(case, t, src)
+        loaders = [(ld, ax, None) for ld, ax in LOADERS if grp is None or ld != "load_table"]
+        extra = [v for v in VARIANTS if grp is None or v[0] != "load_table"]
+        loaders += random.Random(case.get("poke", 0)).sample(extra, 2)
         if bad is None:
-            results = [(ld, ax, run_loader(path, ld, ax, grp)) for ld, ax in loaders]
+            with c04.profile_of(case, src):
+                results = [(ld, ax, dict(run_loader(path, ld, ax, grp, var), variant=var)) for ld, ax, var in loaders]
         else:
             results = [(ld, ax, {"error": "Other", "message": "not loaded: %s/matrix arrays leave the shape" % bad,
-                                 "unsafe": bad}) for ld, ax in loaders]
+                                 "unsafe": bad}) for ld, ax, _ in loaders]
     finally:
         if os.path.exists(path):
             os.remove(path)
@@ -108,7 +157,7 @@ def write_read_load(case, tmp=TMP):
 
 def check_case(ctx, case, tmp=TMP):
     if hasattr(ctx, "journal"):
-        ctx.journal({"case": case})
+        ctx.journal({"case": c04.public(case)})
     try:
         src, pre, raw, gen_by, date, sn, results = write_read_load(case, tmp)
     except c04.Unobservable as u:
@@ -120,7 +169,7 @@ def check_case(ctx, case, tmp=TMP):
         if u.src is not None and not ctx.driver.ask({"op": "domain", "src": u.src})["in_domain"]:
             ctx.count("raised on a table outside the theorems' domain (not a violation):" + u.stage)
             return []
-        ctx.fail({"case": case}, "C01.%s-raised" % u.stage, ["route=" + case["route"], "writer=" + case["writer"],
+        ctx.fail({"case": c04.public(case)}, "C01.%s-raised" % u.stage, ["route=" + case["route"], "writer=" + case["writer"],
                                                             "exc=" + u.exc_name], detail={"what": str(u), "src": u.src})
         return []
     base = c04.request(case, src, pre, raw, gen_by, date)
@@ -129,6 +178,8 @@ def check_case(ctx, case, tmp=TMP):
              nontrivial=c04.nontrivial(src))
     for tg in tags0:
         ctx.count(tg)
+    if case.get("_mutated"):
+        ctx.fail({"case": c04.public(case)}, "C01.writer-changed-the-table", tags0, detail={"fields": case["_mutated"]})
     for ax in ("omd", "smd"):
         if src[ax]:
             for k, v in src[ax][0]:
@@ -136,15 +187,16 @@ def check_case(ctx, case, tmp=TMP):
                           ("/slash" if "/" in k else ""))
     out = []
     for ld, ax, res in results:
+        var = res.pop("variant", None)
         if res.get("unsafe"):
-            ctx.fail({"case": case, "loader": ld, "axis": ax}, "C01.file-not-loadable", tags0 + ["unsafe=" + res["unsafe"]],
+            ctx.fail({"case": c04.public(case), "loader": ld, "axis": ax}, "C01.file-not-loadable", tags0 + ["unsafe=" + res["unsafe"]],
                      detail={"why": res["message"]})
             continue
         req = dict(base, loader=ld, axis=ax, sniff=sn, obs={k: v for k, v in res.items() if k != "message"})
         r = ctx.driver.ask(req)
-        tags = tags0 + ["loader=" + ld, "axis=" + ax]
-        ctx.count("loader=%s/%s" % (ld, ax))
-        rec = {"case": case, "loader": ld, "axis": ax}
+        tags = tags0 + ["loader=" + ld, "axis=" + ax] + (["variant=" + var] if var else [])
+        ctx.count("loader=%s/%s%s" % (ld, ax, "/" + var if var else ""))
+        rec = {"case": c04.public(case), "loader": ld, "axis": ax, "variant": var}
         if not r["model_holds"]:
             ctx.diverge(rec, "theorem fromH5_toH5 contradicted by the driver", tags, detail={"model": r["model"]})
         if not r["holds"]:
@@ -218,6 +270,8 @@ def run(ctx):
                 ctx.count("corpus")
         n = 380 if ctx.quick() else 24000 // wcount
         c04.poison_process(ctx, tmp)
+        for case in c04.wide_cases(ctx.rng):
+            check_case(ctx, case, tmp)
         for k in range(n):
             if k == n // 2:
                 c04.poison_process(ctx, tmp)
